@@ -182,6 +182,24 @@ def sampling_factor_cases(col, rng):
                                  f"{np.diag(pinv).round(4).tolist()}; non-zero columns {nz_cols}, rank used by the density {r}", "input": {"eigenvalues": lam.tolist()}})
 
 
+def sampling_factor_user_tolerance_cases(col, rng):
+    """a USER tolerance decides which eigenvalues count as zero - for the rank the density uses AND for the sampling factor: non-zero columns
+    of S = rank, no sample component along a direction the distribution itself declares null, 1/eigenvalue as variance along the others"""
+    import jax
+    for lam, tol in ((np.array([1e-4, 1.0, 2.0]), 1e-3), (np.array([1e-9, 3e-8, 0.5]), 1e-10), (np.array([0.2, 1.0, 2.0]), 0.5)):
+        d = MVND(jnp.zeros(3), jnp.asarray(np.diag(lam), jnp.float32), tol=tol)
+        S = np.asarray(d._sqrt_pcov, np.float64)
+        r = int(np.asarray(d.rank))
+        null = lam < tol
+        want = np.diag(np.where(null, 0.0, 1.0 / lam))
+        nz_cols = int(np.sum(np.abs(S).sum(axis=0) > 0))
+        xs = np.asarray(d.sample(64, seed=jax.random.PRNGKey(5)), np.float64)
+        ok = nz_cols == r == int(np.sum(~null)) and np.allclose(S @ S.T, want, rtol=2e-3, atol=0.0) and np.all(xs[:, null] == 0.0)
+        col.add(None if ok else {"sig": "native::mvn_degen::sampling_factor_user_tolerance", "what": f"eigenvalues {lam.tolist()}, tol={tol}: rank used by the density {r}, non-zero columns "
+                                 f"of the sampling factor {nz_cols}, diagonal of S S' {np.diag(S @ S.T).tolist()} (expected {np.diag(want).tolist()}), largest sample component along the "
+                                 f"declared null directions {float(np.abs(xs[:, null]).max()) if null.any() else 0.0}", "input": {"eigenvalues": lam.tolist(), "tol": tol}})
+
+
 def sampling_factor_constructor_cases(col, rng):
     """NON-diagonal precisions (random rotation), full rank and rank-deficient, through every constructor variant incl. a rank supplied as python int /
     numpy integer / together with log_pdet: the factor S used by sample() satisfies S S' = pseudo-inverse of the precision, and drawn samples are loc + S z"""
@@ -314,6 +332,7 @@ def bounded(tier, seed):
     batch_cases(col, rng)
     try:
         sampling_factor_constructor_cases(col, rng)
+        sampling_factor_user_tolerance_cases(col, rng)
     except Exception as e:
         col.add({"sig": f"native::mvn_degen::exception::{type(e).__name__}", "what": str(e)[:200], "input": {"scenario": "sampling factor, constructor variants"}})
     try:
